@@ -128,7 +128,7 @@ def run(ctx):
             ctx.check('C16.W1', ok, lv.name, '$in:range', lv.where(e), '$in covers the explicit inputs only: count = %s' % cnt)
             # the separator handed over: ' ' on every path that decided var == "in", '\n' on the others
             def wrong_sep(ev, facts, e=e):
-                isin_ = [p_ for (k_, p_) in facts if isinstance(k_, str) and '"in"' in k_ and 'operator==' in k_]
+                isin_ = [p_ for (k_, p_) in facts if isinstance(k_, str) and '"in"' in k_ and 'operator==' in k_ and '||' not in k_ and '&&' not in k_]
                 v = path_value(lv, e['args'][2], facts)
                 if not isin_:
                     return True
